@@ -17,7 +17,7 @@ def ob(name, nev, nmax, **kw):
     o.update(kw)
     return o
 OBLIGATIONS = [
-    ob('simul_ev4_n2', 4, 2),
-    ob('simul_ev5_n2', 5, 2, tiers=('thorough',), timeout=3000, mem_gb=24),
+    ob('simul_ev3_n2', 3, 2),
+    ob('simul_ev4_n2', 4, 2, tiers=('thorough',), timeout=3000, mem_gb=30),
     ob('simul_ev7_n3', 7, 3, tiers=('thorough',), timeout=3000, mem_gb=24),
 ]
